@@ -29,7 +29,7 @@ for n in sorted(os.listdir(sd)):
     c = m['checks'].get(m['breaks_property'], {})
     print('| %s | %s | %s | exit %s%s | %s |' % (
         n, m['breaks_property'], (m.get('needs_to_manifest') or m.get('summary') or '')[:160],
-        c.get('exit'), ' (after strengthening)' if m.get('history') else '',
+        c.get('exit'), ' (after strengthening)' if (m.get('history') or '').startswith(('MISSED', 'first run', 'the decode clause')) or 'MISSED first' in (m.get('history') or '') else '',
         ', '.join(c.get('buckets', [])[:3])))
 mx = os.path.join(sd, 'matrix.json')
 if os.path.exists(mx):
